@@ -306,6 +306,7 @@ class C06(Harness):
             inp["which"] = int(self._choice(ctx, "which", 0, len(self._class_list()) - 1))
             inp["symmetric"] = bool(ctx.fresh_bool("symmetric"))
             inp["square_root"] = bool(ctx.fresh_bool("square_root"))
+            inp["via_set_params"] = bool(ctx.fresh_bool("via_set_params"))  # options given at construction or set afterwards
         return inp
 
     @staticmethod
@@ -402,7 +403,11 @@ class C06(Harness):
             C = W.load("sktime.performance_metrics.forecasting._classes")
             cname, fname, opts = self._class_list()[inp["which"]]
             kw = {o: inp[o] for o in opts}
-            obj = getattr(C, cname)(**kw)
+            if inp.get("via_set_params") and kw:
+                obj = getattr(C, cname)(**{o: (not v) for o, v in kw.items()})
+                obj.set_params(**kw)
+            else:
+                obj = getattr(C, cname)(**kw)
             yt, yp = self._arr(W, inp["yt"]), self._arr(W, inp["yp"])
             try:
                 cls = self._val(obj(yt, yp))
